@@ -632,7 +632,12 @@ pub fn gen_case(seed: u64, shard: u64, run: u64, t: &Tier) -> Case {
     let reconfigure = if !matches!(ctor, Ctor::New(_)) && knobs.chance(0.5) {
         let mut t = gen::gen_safety(&mut w, cell.tool.is_some(), cell.base.is_some(), n_env, false, knobs.chance(0.5));
         t.special.retain(|s| (s.0 as usize) < ENV0 + n_env && (s.1 as usize) < ENV0 + n_env);
-        Some(Reconf { safety: t, drop_last_env: knobs.chance(0.4) })
+        // half of the time the SAME table retuned (same keys, same counts, other values)
+        let same_shape = knobs.chance(0.5);
+        if same_shape {
+            t = gen::retune_safety(&mut w, &cell.safety);
+        }
+        Some(Reconf { safety: t, drop_last_env: !same_shape && knobs.chance(0.4) })
     } else {
         None
     };
@@ -671,6 +676,7 @@ pub fn run(tier_name: &str, seed: u64) -> i32 {
                     tally.bump("sched_branching_points", c.branching);
                     tally.max("max_runnable_tasks", c.max_runnable as u64);
                     tally.bump("par_calls", c.n_par_calls);
+                    tally.bump("work_steals_while_blocked_ran", c.n_steals_ran);
                     tally.bump("par_calls_multiworker", c.n_par_multiworker);
                     tally.bump("find_any_races", c.n_find_any_races);
                     tally.bump("find_any_races_with_several_hits", c.n_find_any_multi);
